@@ -450,7 +450,7 @@ Section Transfer.
   }.
 
   Record presidue := mkpres {
-    pr_lig : bool;                        (* this residue is the ligand the MOL2 file describes *)
+    pr_name : string;                     (* residue.name *)
     pr_atoms : list patom
   }.
 
@@ -473,6 +473,30 @@ Section Transfer.
     | None => None
     end.
 
+  (* `x in {set of names}` and `a <= b` on sets of names *)
+  Definition smem (s : string) (l : list string) : bool := existsb (String.eqb s) l.
+  Definition ssubset (a b : list string) : bool := forallb (fun x => smem x b) a.
+  Definition nmem (i : nat) (l : list nat) : bool := existsb (Nat.eqb i) l.
+
+  (* `heavy <= {a.name for a in res.atoms} <= ligand.atoms.keys()`: the residue
+     consists of exactly the heavy atoms the MOL2 file lists, plus any of its
+     hydrogens *)
+  Definition describes (heavy : list string) (lig : list (string * P)) (r : presidue) : bool :=
+    ssubset heavy (map pa_name (pr_atoms r)) && ssubset (map pa_name (pr_atoms r)) (map fst lig).
+
+  (* `lig_names` as computed before the loop.  [lnames] = residue names of the
+     MOL2 atoms, [heavy] = names of the MOL2 atoms whose type is not "H".
+     If some residue of the structure carries a MOL2 residue name the names
+     decide; otherwise (placeholder name in the MOL2 file) the residues that
+     the file describes atom by atom. *)
+  Definition lig_names (lnames heavy : list string) (lig : list (string * P))
+             (rs : list presidue) : list string :=
+    if existsb (fun r => smem (pr_name r) lnames) rs then lnames
+    else map pr_name (filter (describes heavy lig) rs).
+
+  (* `if residue.name not in lig_names: continue` *)
+  Definition selected (names : list string) (r : presidue) : bool := smem (pr_name r) names.
+
   (* `for pdb_atom in residue.atoms: if pdb_atom.type == "ATOM": break ...` *)
   Fixpoint visit_atoms (lig : list (string * P)) (st : tstate) (l : list patom) : tstate :=
     match l with
@@ -491,14 +515,36 @@ Section Transfer.
           end
     end.
 
-  Definition transfer_loop (lig : list (string * P)) (rs : list presidue) : tstate :=
-    fold_left (fun st r => visit_atoms lig st (pr_atoms r)) rs
+  (* the loop over the residues, for a given set of selected residue names *)
+  Definition transfer_loop_on (names : list string) (lig : list (string * P))
+             (rs : list presidue) : tstate :=
+    fold_left (fun st r => if selected names r then visit_atoms lig st (pr_atoms r) else st) rs
               (mkts (ff_param rs) [] (ff_misses rs)).
 
-  (* the atom lines of the PQR: matched_atoms + lig_atoms, each printed with
-     the parameters its object carries at the end *)
-  Definition written (lig : list (string * P)) (rs : list presidue) : list (nat * option P) :=
-    let st := transfer_loop lig rs in
+  (* the atom lines of the PQR:
+     `matched_atoms += [a for a in lig_atoms if a not in matched_atoms]`,
+     each printed with the parameters its object carries at the end *)
+  Definition written_on (names : list string) (lig : list (string * P))
+             (rs : list presidue) : list (nat * option P) :=
+    let st := transfer_loop_on names lig rs in
+    map (fun i => (i, ts_param st i))
+        (ff_hits rs ++ filter (fun i => negb (nmem i (ff_hits rs))) (ts_lig st))%list.
+
+  (* main.non_trivial as coded now *)
+  Definition transfer_loop (lnames heavy : list string) (lig : list (string * P))
+             (rs : list presidue) : tstate :=
+    transfer_loop_on (lig_names lnames heavy lig rs) lig rs.
+  Definition written (lnames heavy : list string) (lig : list (string * P))
+             (rs : list presidue) : list (nat * option P) :=
+    written_on (lig_names lnames heavy lig rs) lig rs.
+
+  (* THE LOOP BEFORE THE REPAIR of finding C16-F4 (kept for the labelled
+     refutation only): every residue is visited, every matched atom is appended *)
+  Definition transfer_loop_old (lig : list (string * P)) (rs : list presidue) : tstate :=
+    fold_left (fun st r => visit_atoms lig st (pr_atoms r)) rs
+              (mkts (ff_param rs) [] (ff_misses rs)).
+  Definition written_old (lig : list (string * P)) (rs : list presidue) : list (nat * option P) :=
+    let st := transfer_loop_old lig rs in
     map (fun i => (i, ts_param st i)) (ff_hits rs ++ ts_lig st)%list.
 End Transfer.
 Arguments patom : clear implicits.
@@ -571,11 +617,13 @@ Definition show_tables : string :=
                show_F a ++ "," ++ show_F b ++ "," ++ show_F c ++ "," ++ show_F d) POLY ++ "|CONST=" ++
   show_list show_Q [max_charge QA; h_electroneg QA; damping QA; scaling QA; inject_Z (Z.of_nat num_cycles)].
 
-(* the transfer loop over printable parameters (charge, radius as strings) *)
-Definition run_transfer (lig : list (string * string))
-           (rs : list (bool * list (nat * bool * string * option string))) : string :=
+(* the transfer loop over printable parameters (charge, radius as strings):
+   MOL2 residue names, names of the MOL2 non-hydrogen atoms, MOL2 atoms,
+   residues as (name, atoms) *)
+Definition run_transfer (lnames heavy : list string) (lig : list (string * string))
+           (rs : list (string * list (nat * bool * string * option string))) : string :=
   let rs' := map (fun r => mkpres (fst r)
                      (map (fun a => mkpatom (fst (fst (fst a))) (snd (fst (fst a))) (snd (fst a)) (snd a)) (snd r))) rs in
-  let st := transfer_loop lig rs' in
-  show_list (fun w => Z_to_string (Z.of_nat (fst w)) ++ "=" ++ show_opt (fun s => s) (snd w)) (written lig rs')
+  let st := transfer_loop lnames heavy lig rs' in
+  show_list (fun w => Z_to_string (Z.of_nat (fst w)) ++ "=" ++ show_opt (fun s => s) (snd w)) (written lnames heavy lig rs')
   ++ "|" ++ show_list (fun i => Z_to_string (Z.of_nat i)) (ts_missing st).
